@@ -145,6 +145,27 @@ Theorem csv_header_rejects : forall trim d input h st1 r st2,
   forall k, run_reads ost (old_read trim d) (S k) (old_init d input) = [OFatal].
 Proof. exact header_rejects_general. Qed.
 
+(* the header line is one on which the csv decoder itself fails (stray quote in an unquoted cell,
+   text after a closing quote, ...): the first Read returns the fatal header error and nothing else
+   is ever returned - in particular no record, however long the caller keeps reading *)
+Theorem csv_header_parse_error : forall trim d input h st1 st2,
+  d_header d = Some h ->
+  jump_to (S h) (d_delim d) (h - 1) (o_c (old_init d input)) = Some (false, st1) ->
+  csv_next (d_delim d) st1 = (CParseErr, st2) ->
+  forall k, run_reads ost (old_read trim d) (S k) (old_init d input) = [OFatal].
+Proof. exact header_parse_error. Qed.
+
+(* in terms of the input text: header on line 1 whose first cell is unquoted and contains a quote *)
+Theorem csv_header_bare_quote_first_line : forall trim d f tailf rest,
+  valid_delim (d_delim d) = true ->
+  d_header d = Some 1 -> d_replace_dq d = false ->
+  f <> [] -> head_is_quote f = false -> index_sub (encode_rune (d_delim d)) f = None ->
+  mem_byte QUOTE f = true ->
+  (tailf = [] \/ exists g, tailf = encode_rune (d_delim d) ++ g) ->
+  mem_byte LF (f ++ tailf) = false -> mem_byte CR (f ++ tailf) = false ->
+  forall k, run_reads ost (old_read trim d) (S k) (old_init d ((f ++ tailf) ++ LF :: rest)) = [OFatal].
+Proof. exact (fun trim d f tailf rest V => header_bare_quote_first_line trim d V f tailf rest). Qed.
+
 Theorem csv_header_unreadable : forall trim d input h st1,
   d_header d = Some h ->
   jump_to (S h) (d_delim d) (h - 1) (o_c (old_init d input)) = Some (true, st1) ->
@@ -164,8 +185,11 @@ Example csv_header_nonvacuous :
   (* "a; b \n1;2;3\n" is accepted and delivers columns a and bb; "a;c\n1;2\n" is rejected *)
   run_reads ost (old_read trim_space d) 3 (old_init d (hx "613b2062200a313b323b330a"))
     = [ONode (T DocumentNode [] FNone [text_elem (hx "61") (hx "31"); text_elem (hx "6262") (hx "32")]); OEOF]
-  /\ run_reads ost (old_read trim_space d) 3 (old_init d (hx "613b630a313b320a")) = [OFatal].
-Proof. vm_compute. auto. Qed.
+  /\ run_reads ost (old_read trim_space d) 3 (old_init d (hx "613b630a313b320a")) = [OFatal]
+  (* header a;b followed by a stray quote and x, and "a"x;b : the decoder fails on the header line *)
+  /\ run_reads ost (old_read trim_space d) 9 (old_init d (hx "613b6222780a313b320a")) = [OFatal]
+  /\ run_reads ost (old_read trim_space d) 9 (old_init d (hx "22612278" ++ hx "3b620a313b320a")) = [OFatal].
+Proof. vm_compute. auto 6. Qed.
 
 (* ---- csv2 ---------------------------------------------------------------------------------------------
    csv2_column_fidelity, at the level of the record reader (flatfile.RecReader) and for every
